@@ -321,6 +321,59 @@ def _check_c08(part: Part, tier, seed):
                            target=f"{TF}:AstInfo._in_cover")
 
 
+    # all four clauses of a try statement (also nested in a loop), a marker on every single code line
+    src3 = _SUBJECT_TRY
+    baseline3 = _goals(src3, "c08_base3", config.ToCoverConfiguration(enable_inline_pragma_no_cover=False, enable_inline_pynguin_no_cover=False))
+    lines3 = [i + 1 for i, ln in enumerate(src3.split("\n")) if ln.strip()]
+    for j, ln in enumerate(lines3):
+        k += 1
+        part.case()
+        try:
+            probs = exclusion_problems(src3, f"c08_case_{k}", ((ln, texts[j % 2]),), (), (), (), baseline3)
+        except Exception as e:  # noqa: BLE001
+            part.error(f"try-clauses marker on line {ln}: {type(e).__name__}: {e}")
+            continue
+        for clause, cls, detail in probs:
+            part.violation(clause, cls + ":try-clauses", {**detail, "module": "try/except/else/finally module", "source": src3},
+                           target=f"{TF}:AstInfo.should_cover_line")
+
+
+_SUBJECT_TRY = '''
+def convert(text, log):
+    try:
+        value = int(text)
+    except ValueError:
+        if log:
+            log.append(text)
+        value = 0
+    else:
+        if value < 0:
+            value = -value
+        value += 1
+    finally:
+        if log is not None:
+            log.append("done")
+        text = None
+    return value
+def drain(items, log):
+    total = 0
+    for item in items:
+        try:
+            total += 10 // item
+        except ZeroDivisionError:
+            total -= 1
+        except TypeError:
+            break
+        else:
+            if total > 100:
+                total = 100
+        finally:
+            if log:
+                log.append(item)
+    return total
+'''
+
+
 _SUBJECT_ONELINERS = '''
 class Rect:
     def __init__(self, w, h): self.w, self.h = w, h
